@@ -83,6 +83,15 @@ def lemma_obligations(ctx: Ctx, lem: api.Lemma):
             for t in lem.triggers:
                 try:
                     pats.append(Pure(ctx, env2).ev(_parse_spec(t)).t)
+                    # the unfolded definition mentions the recursive call through its `_low` twin: match that too
+                    saved = ctx._defining
+                    ctx._defining = set(ctx.specfuncs)
+                    try:
+                        low = Pure(ctx, env2).ev(_parse_spec(t)).t
+                    finally:
+                        ctx._defining = saved
+                    if not low.eq(pats[-1]):
+                        pats.append(low)
                 except Exception:  # noqa: BLE001
                     pass
             pc.append(z3.ForAll(gen, ih, patterns=pats) if pats else z3.ForAll(gen, ih))
